@@ -279,16 +279,27 @@ def run(rep, pdb, tier):
         if tl is not None and strip(tl).get("k") == "For":
             inner.append({"e": tl})
         decs = [e for e in effs if e.kind == "assignop" and e.op == "-=" and e.value == num(1) and e.loops == [lp0]]
-        if r0 is not None and r0[1:5] == (num(0), M1, False, False) and len(inner) == 2 and len(decs) == 1 and decs[0].target[0] == "var":
+        closed = r0 is not None and len(inner) == 2 and not decs        # the shift written in closed form (m1 - i), no running counter
+        if r0 is not None and r0[1:5] == (num(0), M1, False, False) and len(inner) == 2 and ((len(decs) == 1 and decs[0].target[0] == "var") or closed):
             i0 = r0[0]
-            lv = decs[0].target
-            lb = [e for e in effs if e.kind == "assign" and e.target == lv and not e.loops and _pos(e.node) < _pos(lp0)]
-            linit = ctx.binds.get(lv[1])
-            init_ok = (linit is not None and linit.init is not None and ctx.term(linit.init) == M1 and not lb) or (lb and lb[-1].value == M1)
             before, after = lin_sub(M1, i0), lin_sub(lin_sub(M1, i0), num(1))
+            if closed:
+                init_ok = True
 
-            def val(t, node):
-                return subst_term(t, {lv: before if _pos(node) < _pos(decs[0].node) else after})
+                class _D:
+                    node = lp0
+                decs = [_D()]
+
+                def val(t, node):
+                    return t
+            else:
+                lv = decs[0].target
+                lb = [e for e in effs if e.kind == "assign" and e.target == lv and not e.loops and _pos(e.node) < _pos(lp0)]
+                linit = ctx.binds.get(lv[1])
+                init_ok = (linit is not None and linit.init is not None and ctx.term(linit.init) == M1 and not lb) or (lb and lb[-1].value == M1)
+
+                def val(t, node):
+                    return subst_term(t, {lv: before if _pos(node) < _pos(decs[0].node) else after})
             la, lb2 = strip(inner[0]["e"]), strip(inner[1]["e"])
             ra, rb = for_range(ctx, la), for_range(ctx, lb2)
             sa = [e for e in effs if e.kind == "set" and e.target == AU and e.loops == [lp0, la]]
